@@ -7,7 +7,8 @@ CONSTANTS
  Ns = {2, 3}
  MsgVecs <- MV11
  CCoins <- AllZq
- SCoins <- AllZq
+ SCoins <- C2a
  Tamper = FALSE
+ PowM <- TabPowM
 INVARIANTS Correct HonestAbort Refusal OneOnly Curious CuriousPairs
 CHECK_DEADLOCK FALSE
